@@ -20,7 +20,7 @@ IDS = [{"A": "Server", "B": "Client", "S": "Server", "o": "optional", "T": "Tool
        # a top-level variant and a child below another one share their id (HA next to Server-HA): UIDs stay distinct
        {"A": "Server", "B": "HA", "S": "S", "o": "optional", "T": "T", "h": "HA", "g": "HA"}]
 ARCHS = [("x86_64", "xen", "lpae"), ("ppc64le", "p8", "b"), ("aarch64", "X", "y"), ("i386", "xen-pv", "xen"), ("armhfp", "omap", "tegra"),
-         ("ppc", "ppc64", "ppc64le")]                      # the tree arch is a substring of its other platforms   # a platform name may contain dashes
+         ("ppc", "ppc64", "ppc64le"), ("nosrc", "a", "b")]                      # the tree arch is a substring of its other platforms   # a platform name may contain dashes
 IMG = {"boot": "images/boot.iso", "kernel": "images/pxeboot/vmlinuz", "xenkernel": "images/pxeboot/vmlinuz-xen", "initrd": "images/Initrd.IMG",
        "stage2": "LiveOS/squashfs.img", "inst": "images/install.img"}
 
@@ -54,6 +54,8 @@ class Conc(object):
 
 
 MEDIA = [(2, 3), (1, 1), (0, 0), (12, 12)]
+# float time stamps (value, its text in [tree], its integer part in [general]): also ones Python prints in exponent notation
+FLOATS = [(1432300000.75, "1432300000.75", "1432300000"), (1e16, "1e+16", "10000000000000000"), (1.2345678901234568e+17, "1.2345678901234568e+17", "123456789012345680")]
 
 
 def ini_parse(text):
@@ -80,7 +82,7 @@ def build(obj, conc, foreign_owner=False):
         t.base_product.name, t.base_product.short, t.base_product.version = tx["bpname"], tx["bpshort"], tx["bpver"]
     arch = conc.binarch if sec["arch"] == "bin" else "src"
     t.tree.arch = arch
-    t.tree.build_timestamp = {"int": 1432300000, "float": 1432300000.75, "neg": -86400 if conc.rot % 2 else -1}[sec["ts"]]
+    t.tree.build_timestamp = {"int": 1432300000, "float": FLOATS[(conc.rot // 3) % len(FLOATS)][0], "neg": -86400 if conc.rot % 2 else -1}[sec["ts"]]
     pl = {"p1": conc.p1, "p2": conc.p2}
     # the writer always lists the tree arch among the platforms; only image tables need it listed explicitly
     t.tree.platforms = set(pl[p] for p in sec["plats"]) | (set([arch]) if sec["imgs"] != "none" else set())
@@ -150,10 +152,12 @@ def render(x, conc, obj):
             import productmd.common
             return ".".join(str(i) for i in productmd.common.VERSION)
         if s == "$ts":
-            return {"int": "1432300000", "float": "1432300000.75", "neg": "-86400" if conc.rot % 2 else "-1"}[sec["ts"]]
+            return {"int": "1432300000", "float": FLOATS[(conc.rot // 3) % len(FLOATS)][1], "neg": "-86400" if conc.rot % 2 else "-1"}[sec["ts"]]
         if s in ("$discnum", "$totaldiscs"):
             return str(MEDIA[conc.rot % len(MEDIA)][s == "$totaldiscs"])
         if s == "$tsint":
+            if sec["ts"] == "float":
+                return FLOATS[(conc.rot // 3) % len(FLOATS)][2]
             return ("-86400" if conc.rot % 2 else "-1") if sec["ts"] == "neg" else "1432300000"
         if s == "$relname $relver":
             return "%s %s" % (conc.text["relname"], conc.text["relver"])
